@@ -26,7 +26,7 @@ RULE = ("spelling classes: a base URL case (C01's directed corpus, frame URLs wi
 ASSUMPTIONS = ["only the transformations the statement lists; a character is toggled only if the strict decoder assigns both spellings the same bytes and it is not a delimiter of its component",
                "'..' is never inserted directly after an empty segment (resolution order ambiguous)", "classes are judged among parseable members only"]
 FLOORS = ["class-compared", "idempotence-checked", "mode-roundtrip-checked", "T-case-scheme-host", "T-default-port", "T-lower-hex", "T-toggle-escape", "T-punycode",
-          "T-whitespace-wrap", "T-controls", "T-dot-segments", "T-empty-delims", "composed-3+", "toggle-space", "probe-unquote-path"]
+          "T-whitespace-wrap", "T-controls", "T-dot-segments", "T-empty-delims", "T-root-slash", "composed-3+", "toggle-space", "probe-unquote-path"]
 PROBE_FLOORS = ["unquote", "upper_quoted", "normpath", "canonicalize_url"]
 MODES = [(q, s) for q in (False, True) for s in (False, True)]
 
@@ -170,7 +170,7 @@ def single_variants(base, rng):
     """Every single transformation at every applicable position (deterministic enumeration) + string-level controls."""
     out = []
     ub = G.render(base)
-    for name in ("case-scheme-host", "default-port", "lower-hex", "punycode", "whitespace-wrap", "empty-delims"):
+    for name in ("case-scheme-host", "default-port", "lower-hex", "punycode", "whitespace-wrap", "empty-delims", "root-slash"):
         v = S.CASE_T[name](base, rng)
         if v is not None:
             out.append((name, G.render(v)))
